@@ -57,6 +57,32 @@ func pick(c *core.Ctx, res []result, maxAccepted, others int) []result {
 	return out
 }
 
+// value types templ.SanitizeCSS[T ~string] is instantiated with
+type colour string
+type shade colour
+type almostSafe templ.SafeCSSProperty // not the trusted type itself: must be sanitised
+
+var valueTypes = []string{"string", "named string type", "named type of a named type", "named type over SafeCSSProperty", "SafeCSSProperty"}
+
+const vtSafe = 4
+
+var untrustedTypes = []int{0, 1, 2, 3}
+
+func callTemplCSS(vt int, p, v string) string {
+	switch vt {
+	case 0:
+		return string(templ.SanitizeCSS(p, v))
+	case 1:
+		return string(templ.SanitizeCSS(p, colour(v)))
+	case 2:
+		return string(templ.SanitizeCSS(p, shade(v)))
+	case 3:
+		return string(templ.SanitizeCSS(p, almostSafe(v)))
+	default:
+		return string(templ.SanitizeCSS(p, templ.SafeCSSProperty(v)))
+	}
+}
+
 // runTemplCSS: templ.SanitizeCSS[T] (css component expressions) and the <style> element it ends up in.
 func runTemplCSS(c *core.Ctx, res []result) {
 	defer layerPanic(c, "templ.SanitizeCSS / RenderCSSItems")
@@ -65,19 +91,24 @@ func runTemplCSS(c *core.Ctx, res []result) {
 	type tc struct {
 		r    result
 		safe bool
+		vt   int
 		out  string
 	}
 	var tcs []tc
 	for i, r := range sel {
-		out := string(templ.SanitizeCSS(r.cs.prop, r.cs.val))
-		tcs = append(tcs, tc{r, false, out})
-		c.Hist("templ.SanitizeCSS[string]")
-		c.Count("templ|" + r.cs.prop + "|" + r.cs.val)
-		if i%7 == 0 {
-			out := string(templ.SanitizeCSS(r.cs.prop, templ.SafeCSSProperty(r.cs.val)))
-			tcs = append(tcs, tc{r, true, out})
-			c.Hist("templ.SanitizeCSS[SafeCSSProperty]")
-			c.Count("")
+		// the generic is instantiated with every kind of value type a css component parameter can have
+		for vt := 0; vt < len(valueTypes); vt++ {
+			if vt > 0 && vt != 1+i%(len(valueTypes)-1) && !(r.accepted == false && i%3 == 0) {
+				continue // string always; the other types in rotation, and all of them on a third of the rejected values
+			}
+			out := callTemplCSS(vt, r.cs.prop, r.cs.val)
+			tcs = append(tcs, tc{r, vt == vtSafe, vt, out})
+			c.Hist("templ.SanitizeCSS[" + valueTypes[vt] + "]")
+			key := ""
+			if vt != vtSafe {
+				key = "templ|" + valueTypes[vt] + "|" + r.cs.prop + "|" + r.cs.val
+			}
+			c.Count(key)
 		}
 	}
 	for _, t := range tcs {
@@ -105,18 +136,18 @@ func runTemplCSS(c *core.Ctx, res []result) {
 		if string(mres[2*i][0]) != t.out {
 			tieOK = false
 			if c.NFails("templ.SanitizeCSS: model = implementation") < 3 {
-				c.Fail("tie", "templ.SanitizeCSS: model = implementation", "", map[string]string{"property": t.r.cs.prop, "value": t.r.cs.val, "SafeCSSProperty": fmt.Sprint(t.safe), "impl": t.out, "model": string(mres[2*i][0])}, "model and implementation differ")
+				c.Fail("tie", "templ.SanitizeCSS: model = implementation", "", map[string]string{"property": t.r.cs.prop, "value": t.r.cs.val, "value_type": valueTypes[t.vt], "impl": t.out, "model": string(mres[2*i][0])}, "model and implementation differ")
 			}
 		}
 		if string(mres[2*i+1][0]) != "1" {
 			propOK = false
 			if c.NFails("templ.SanitizeCSS: output is one confined declaration") < 5 {
-				c.Fail("property", "templ.SanitizeCSS: output is one confined declaration", "", map[string]string{"property": t.r.cs.prop, "value": t.r.cs.val, "SafeCSSProperty": fmt.Sprint(t.safe), "impl": t.out},
+				c.Fail("property", "templ.SanitizeCSS: output is one confined declaration", "", map[string]string{"property": t.r.cs.prop, "value": t.r.cs.val, "value_type": valueTypes[t.vt], "impl": t.out},
 					"templ.SanitizeCSS's text does not read back as exactly one declaration with a letters-and-hyphen name and a confined value with allow-listed URLs")
 			}
 		}
 	}
-	c.Oblige("correspondence", "templ.SanitizeCSS: model templ_sanitize_css = templ.SanitizeCSS[string] and [SafeCSSProperty]", tieOK, "")
+	c.Oblige("correspondence", "templ.SanitizeCSS: model templ_sanitize_css = templ.SanitizeCSS[T] for T = string, a named string type, a named type of a named type, a named type over SafeCSSProperty (all sanitised) and SafeCSSProperty (trusted)", tieOK, "")
 	c.Oblige("correspondence", "templ.SanitizeCSS: its text reads back (extracted decl_list) as exactly one declaration satisfying name_ok/confined/urls_ok", propOK, "")
 
 	// the <style> element: what generated css components do (generator.writeCSS), rendered by templ.RenderCSSItems
@@ -131,8 +162,9 @@ func runTemplCSS(c *core.Ctx, res []result) {
 	for i := 0; i+2 < len(sel); i += 3 {
 		group := sel[i : i+3]
 		sb := templruntime.GetBuilder()
-		for _, r := range group {
-			sb.WriteString(string(templ.SanitizeCSS(r.cs.prop, r.cs.val)))
+		for k, r := range group {
+			// parameters of a css component may have any string-based type; none of them is the trusted one here
+			sb.WriteString(callTemplCSS(untrustedTypes[(i/3+k)%len(untrustedTypes)], r.cs.prop, r.cs.val))
 		}
 		id := templ.CSSID(`cls`, sb.String())
 		class := templ.ComponentCSSClass{ID: id, Class: templ.SafeCSS(`.` + id + `{` + sb.String() + `}`)}
